@@ -177,6 +177,18 @@ class OpaqueEngine(TasksEngine):
         return super().global_name(name, cx, node)
 
     def call_method(self, recv, name, e, cx, recv_node):
+        rec = self.c.extra.get("records_calls", {})
+        if isinstance(recv, PyRec) and name in rec and isinstance(recv.fields.get(name), PyObj):
+            # self.<field>(arg, ...): a call of a collaborator held in a field; the contract observes it through ghosts
+            #   records_calls = {field: (ghost receiving the first argument, ghost counting the calls)}
+            args = [self.eval(a, cx) for a in e.args]
+            for kw in e.keywords:
+                self.eval(kw.value, cx)
+            g_arg, g_cnt = rec[name]
+            cx.st.env[g_arg] = PyObj(self.as_v(args[0])) if args else PyObj(none_term())
+            cx.st.env[g_cnt] = PyInt(cx.st.env[g_cnt].t + 1)
+            cx.raise_if(FreshConst(BoolS, name + "_raises"), "UserError")
+            return PyObj(FreshConst(V, "result_of_" + name))
         if isinstance(recv_node, ast.Name) and recv_node.id == "np" and "np" not in cx.st.env:
             args = [self.as_v(self.eval(a, cx)) for a in e.args]
             kws = sorted((kw.arg, self.as_v(self.eval(kw.value, cx))) for kw in e.keywords)
